@@ -295,7 +295,7 @@ pub fn run_one_th(seed: u64, rt: &tokio::runtime::Runtime) -> Outcome {
     let _ = rt.block_on(sup_h);
     th::end();
     let mut extra = vec![];
-    th::wait_until(10_000, || vt::global_leaks().is_empty());
+    let _ = crate::th::settle_leaks();
     for l in vt::global_leaks() {
         extra.push(("leak".to_string(), l));
     }
